@@ -305,8 +305,9 @@ def parse_strict(text: str):
                         "unbalanced", f"{t!r} not closed by {close!r}"
                     )
                 pos += 1
-                if len(brs) < 2:
-                    raise StrictError("unbalanced", f"{t!r} with one branch")
+                # a block with a single branch is unusual but satisfies
+                # every clause of C05 (own terminator, proper nesting,
+                # separators inside their block): accepted
                 if any(len(b) == 0 for b in brs):
                     raise StrictError("unbalanced", f"{t!r} with empty branch")
                 items.append([op, brs])
